@@ -96,15 +96,25 @@ let pcfg_of_raw r =
     c_rssi = opt r.rssifail (z_of_int (let v = r.rssi land 255 in if v >= 128 then v - 256 else v)) }
 let graw = ref default_g
 
+let out = Buffer.create (1 lsl 16)
+let pf fmt = Printf.bprintf out fmt
+let b2i b = if b then 1 else 0
+(* C16 oracle: the specification dictionary, kept per context *)
+let dicts : (int, dent list) Hashtbl.t = Hashtbl.create 8
+let dict_of i = match Hashtbl.find_opt dicts i with Some d -> d | None -> []
+let pr_dict i =
+  let d = dict_of i in
+  let ents = List.map (fun e -> Printf.sprintf "%s:%d:%d:%d:%s" (hex_of_bytes [e.d_k0; e.d_k1; e.d_k2; e.d_k3; e.d_k4; e.d_k5])
+                (int_of_n e.d_gen) (int_of_n e.d_seq) (b2i e.d_complete) (string_of_n e.d_last)) d in
+  let ents = List.sort compare ents in
+  pf "~ cnt=%d allc=%d empty=%d dict=%s" (List.length d) (b2i (d_all_complete d)) (b2i (d = [])) (if ents = [] then "-" else String.concat "," ents)
 let reset_state () =
+  Hashtbl.reset dicts;
   sys := sys0; world := world0; junk := n_of_int 0xA5;
   Hashtbl.reset failalloc; Hashtbl.reset failsend; failalloc_from := -1; failsend_from := -1;
   Hashtbl.reset raws; graw := default_g
 
 (* ---- printing ---- *)
-let out = Buffer.create (1 lsl 16)
-let pf fmt = Printf.bprintf out fmt
-let b2i b = if b then 1 else 0
 let pr_led () = pf " live=%d bytes=%s" (int_of_nat !world.w_live) (string_of_n !world.w_bytes)
 let pr_autom ctx =
   let a = aset_of !sys (n_of_int ctx) in
@@ -212,10 +222,18 @@ let run_line line =
         | _ -> ());
        pf "= ok\n"
      | "frame" -> ignore (exec (OFrame (nctx (), fill 1, bytes_of_hex (arg 2)))); pf "="; pr_led (); pf "\n"
-     | "classify" -> let r = exec (OClassify (nctx (), fill 1, bytes_of_hex (arg 2))) in pf "= ev=%d\n" (ret_int r)
+     | "classify" ->
+       let fr = bytes_of_hex (arg 2) in
+       let c = cfg_of !sys (nctx ()) in
+       let fr' = List.filteri (fun i _ -> i < int_of_n c.c_rxsize) fr in
+       let exp = classify_spec fr' (known_of (aset_of !sys (nctx ())).a_tbl) (mac_bytes (own c)) in
+       let r = exec (OClassify (nctx (), fill 1, fr)) in pf "= ev=%d\n" (ret_int r);
+       if classify_constrained fr' then pf "~ ev=%d\n" (int_of_z exp)
      | "esp32" -> ignore (exec (OEsp32 (nctx (), n_of_int (int_of_string (arg 1)), bytes_of_hex (arg 2)))); auto_line ()
      | "flow" -> ignore (exec (OFlow (nctx (), fill 1, bytes_of_hex (arg 2)))); pf "="; pr_led (); pr_autom (ctx ()); pr_table (ctx ()); pf "\n"
-     | "tick" -> ignore (exec (OTick (nctx ()))); pf "="; pr_autom (ctx ()); pr_table (ctx ()); pf "\n"
+     | "tick" -> ignore (exec (OTick (nctx ()))); pf "="; pr_autom (ctx ()); pr_table (ctx ()); pf "\n";
+       if Hashtbl.mem dicts (ctx ()) then begin
+         Hashtbl.replace dicts (ctx ()) (d_tick (dict_of (ctx ())) (N.div !world.w_now (n_of_int 1000))); pr_dict (ctx ()); pf "\n" end
      | "mk" -> ignore (exec (OMk (nctx ()))); pf "="; pr_led (); pr_autom (ctx ()); pr_table (ctx ()); pf "\n"
      | "ctor" ->
        let k = (match arg 0 with "mapping" -> KMapping | "session" -> KSession | "enumeration" -> KEnumeration | _ -> KTable) in
@@ -243,13 +261,27 @@ let run_line line =
      | "set_map" -> ignore (exec (OSetMap (nctx (), n_of_int (int_of_string (arg 1) land 255), n_of_string (arg 2)))); auto_line ()
      | "set_sess" -> ignore (exec (OSetSess (nctx (), n_of_int (int_of_string (arg 1) land 255), n_of_string (arg 2)))); auto_line ()
      | "set_enum" -> ignore (exec (OSetEnum (nctx (), n_of_int (int_of_string (arg 1) land 255)))); auto_line ()
-     | "st_add" -> let r = exec (OStAdd (nctx (), mac_of_hex (arg 1), n_of_int (int_of_string (arg 2) land 65535), n_of_int (int_of_string (arg 3) land 65535))) in
-       tbl_line ~ret:(string_of_int (ret_int r)) ()
-     | "st_find" -> let r = exec (OStFind (nctx (), mac_of_hex (arg 1), n_of_int (int_of_string (arg 2) land 65535))) in tbl_line ~ret:(string_of_int (ret_int r)) ()
-     | "st_remove" -> ignore (exec (OStRemove (nctx (), mac_of_hex (arg 1), n_of_int (int_of_string (arg 2) land 65535)))); tbl_line ()
-     | "st_complete" -> let r = exec (OStComplete (nctx (), mac_of_hex (arg 1), n_of_int (int_of_string (arg 2) land 65535), int_of_string (arg 3) <> 0)) in
-       tbl_line ~ret:(string_of_int (ret_int r)) ()
-     | "st_clear" -> ignore (exec (OStClear (nctx ()))); tbl_line ()
+     | "st_add" ->
+       let m = mac_of_hex (arg 1) and g = n_of_int (int_of_string (arg 2) land 65535) and q = n_of_int (int_of_string (arg 3) land 65535) in
+       let r = exec (OStAdd (nctx (), m, g, q)) in
+       tbl_line ~ret:(string_of_int (ret_int r)) ();
+       let (d, ok) = d_add (dict_of (ctx ())) (N.div !world.w_now (n_of_int 1000)) m.m0 m.m1 m.m2 m.m3 m.m4 m.m5 g q in
+       Hashtbl.replace dicts (ctx ()) d; pr_dict (ctx ()); pf " retok=%d\n" (b2i ok)
+     | "st_find" ->
+       let m = mac_of_hex (arg 1) and g = n_of_int (int_of_string (arg 2) land 65535) in
+       let r = exec (OStFind (nctx (), m, g)) in tbl_line ~ret:(string_of_int (ret_int r)) ();
+       pr_dict (ctx ()); pf " retok=%d\n" (b2i (d_has (dict_of (ctx ())) m.m0 m.m1 m.m2 m.m3 m.m4 m.m5 g))
+     | "st_remove" ->
+       let m = mac_of_hex (arg 1) and g = n_of_int (int_of_string (arg 2) land 65535) in
+       ignore (exec (OStRemove (nctx (), m, g))); tbl_line ();
+       Hashtbl.replace dicts (ctx ()) (d_remove (dict_of (ctx ())) m.m0 m.m1 m.m2 m.m3 m.m4 m.m5 g); pr_dict (ctx ()); pf "\n"
+     | "st_complete" ->
+       let m = mac_of_hex (arg 1) and g = n_of_int (int_of_string (arg 2) land 65535) and v = int_of_string (arg 3) <> 0 in
+       let r = exec (OStComplete (nctx (), m, g, v)) in
+       tbl_line ~ret:(string_of_int (ret_int r)) ();
+       let had = d_has (dict_of (ctx ())) m.m0 m.m1 m.m2 m.m3 m.m4 m.m5 g in
+       Hashtbl.replace dicts (ctx ()) (d_set_complete (dict_of (ctx ())) m.m0 m.m1 m.m2 m.m3 m.m4 m.m5 g v); pr_dict (ctx ()); pf " retok=%d\n" (b2i had)
+     | "st_clear" -> ignore (exec (OStClear (nctx ()))); tbl_line (); Hashtbl.replace dicts (ctx ()) []; pr_dict (ctx ()); pf "\n"
      | "band_init" -> ignore (exec (OBandInit (nctx ()))); auto_line ()
      | "band_hello" -> ignore (exec (OBandHello (nctx ()))); auto_line ()
      | "band_update" ->
